@@ -60,9 +60,10 @@ class Stream:
     def add_err(self, k):
         self.items.append(k)
 
-    def walk(self, patch=True):
+    def walk(self, patch=True, stop_at_fatal=True):
         """RFC 7854 framing as the receiver does it (restart after a non-fatal error).
-        Returns (frames, end). With patch, declared lengths above CAP are rewritten in place."""
+        Returns (frames, end). With patch, declared lengths above CAP are rewritten in place.
+        stop_at_fatal=False reads on after every error, as the safety guard of the engines does."""
         it = self.items
         i, frames = 0, []
         while True:
@@ -73,7 +74,7 @@ class Stream:
                 x = it[i]
                 i += 1
                 if isinstance(x, str):
-                    if x not in NONFATAL:
+                    if x not in NONFATAL and stop_at_fatal:
                         return frames, "fatal"
                     restart = True
                     break
@@ -83,7 +84,9 @@ class Stream:
                 continue
             ln = int.from_bytes(bytes(h[1:5]), "big")
             if ln < 5:
-                return frames, "short"
+                if stop_at_fatal:
+                    return frames, "short"
+                continue
             if ln > CAP:
                 if not patch:
                     return frames, "huge"
@@ -98,7 +101,7 @@ class Stream:
                 x = it[i]
                 i += 1
                 if isinstance(x, str):
-                    if x not in NONFATAL:
+                    if x not in NONFATAL and stop_at_fatal:
                         return frames, "fatal"
                     restart = True
                     break
@@ -136,7 +139,8 @@ def trivially_unparsable(f):
 def make_case(stream, table, hang, rng=None):
     """table: hex -> descriptor of the frames the generator knows. Full mode only if every frame the
     receiver will hand to the parser is known or trivially unparsable."""
-    frames, _ = stream.walk(patch=True)
+    stream.walk(patch=True, stop_at_fatal=False)     # cap every length field any reading of the script could meet
+    frames, _ = stream.walk(patch=False)
     used, full = {}, True
     for f in frames:
         h = f.hex()
